@@ -174,6 +174,17 @@ func runC13(t *testing.T, planAny any, res *simnet.Result) {
 					defer c.Close()
 					_, _ = c.Hello()
 					t0 := w.Now()
+					if (op.Kind == "release" || op.Kind == "force-release") && unit != "nosuchid" && simnet.H(res.Seed, "inject", unit, op.AtMs)%2 == 0 {
+						// other clients look the unit up (by ID, and through the full list) while its files are being removed
+						what := []string{"work status " + unit, "work list", "work list " + unit}[simnet.H(res.Seed, "injectwhat", unit, op.AtMs)%3]
+						ctl.InjectOnce("release.rm", "/"+unit, func(string) {
+							reply := node.DirectCmd(what)
+							mu.Lock()
+							res.Add("probe_lookup_during_release", 1)
+							_ = reply
+							mu.Unlock()
+						})
+					}
 					reply, err := c.Cmd("work "+op.Kind+" "+unit, 60*time.Second)
 					if err != nil {
 						mu.Lock()
